@@ -46,9 +46,12 @@ def mismatch_sig(m, run):
     return sig
 
 
-def replay_runs(chk: Check, runs, props_wanted=None):
+def replay_runs(chk: Check, runs, driver=None):
     by_id = {r["id"]: r for r in runs}
-    jobs = [(c, chk.seed) for c in pool.chunks(runs, 40)]
+    if driver == "session":
+        from .. import session_driver
+        session_driver.preload()
+    jobs = [(c, chk.seed, driver) for c in pool.chunks(runs, 8 if driver == "session" else 40)]
     results = pool.parallel_map(core_replay._worker, jobs)
     errors = 0
     for chunk in results:
@@ -65,11 +68,11 @@ def replay_runs(chk: Check, runs, props_wanted=None):
             chk.validated(1)
             if len(chk.cov["samples"]) < 4 and nontrivial and run["h"] % 7 == 0:
                 chk.sample({"kind": "spec->code replay", "ops": run["ops"], "srcs": run["srcs"], "prog": run["prog"],
-                            "approved": r["info"]["F"], "beta": r["info"]["beta"],
+                            "approved": r["info"]["F"], "beta": r["info"]["beta"], "driver": r["info"]["driver"],
                             "expected": {k: run["exp"][k] for k in ("res", "failed", "pending", "srcs")}})
             for m in r["mism"]:
                 chk.mismatch(m["clause"], mismatch_sig(m, run),
-                             {"kind": "core-run", "run": run, "seed": chk.seed, "mismatch": m,
+                             {"kind": "core-run", "run": run, "seed": chk.seed, "driver": driver, "mismatch": m,
                               "module": r["text"], "module_after": r["new"]},
                              props=m["props"])
     if errors:
@@ -77,7 +80,8 @@ def replay_runs(chk: Check, runs, props_wanted=None):
 
 
 def core_check(pid: str, *, f_filter=None, cfgs=("A",), quick_stride=8, quick_keep=20,
-               thorough_stride=1, thorough_keep=8, level="model_checking", extra=None):
+               thorough_stride=1, thorough_keep=8, level="model_checking", extra=None,
+               sessions_quick=0, sessions_thorough=0):
     chk = Check(pid, level)
     if chk.replay:
         return replay_file(chk)
@@ -103,6 +107,10 @@ def core_check(pid: str, *, f_filter=None, cfgs=("A",), quick_stride=8, quick_ke
                 if not runs:
                     raise MachineryError("no cases emitted by TLC")
                 replay_runs(chk, runs)
+                ns = sessions_quick if chk.quick else sessions_thorough
+                if ns:
+                    sub = [dict(r, id=r["id"] + "@session") for r in runs[:: max(1, len(runs) // ns)][:ns]]
+                    replay_runs(chk, sub, driver="session")
         finally:
             tlc.cleanup(res)
     if extra:
@@ -117,7 +125,7 @@ def replay_file(chk: Check):
     if rp.get("kind") != "core-run":
         print(json.dumps(rp, indent=1)[:4000])
         return 1
-    mism, info, text, obs = core_replay.replay_one(rp["run"], rp["seed"])
+    mism, info, text, obs = core_replay.replay_one(rp["run"], rp["seed"], rp.get("driver"))
     print(text)
     print("--- after the session (approved: %s)" % info["F"])
     print(obs.get("files", {}).get("test_case.py"))
